@@ -86,8 +86,11 @@ FlatVals(w, vals) ==
 
 Compl(S) == U \ S
 
+(* the in-range indices of the run lo, lo+step, ..., lo+(cnt-1)*step *)
+InRun(a) == {i \in U : i >= a.lo /\ (i - a.lo) % a.step = 0 /\ (i - a.lo) \div a.step < a.cnt}
+
 Reply(a) ==
-  CASE a.op \in {"set", "unset", "fill", "and", "or", "orrev", "rev"} -> 0
+  CASE a.op \in {"set", "unset", "setrun", "unsetrun", "fill", "and", "or", "orrev", "rev"} -> 0
     [] a.op = "len"   -> Card(bm[a.h])
     [] a.op = "nlen"  -> univ - Card(bm[a.h])
     [] a.op = "equal" -> bm[a.h] = bm[a.g]
@@ -101,6 +104,9 @@ Put(h, S) == bm' = [bm EXCEPT ![h] = S] /\ UNCHANGED univ
 Do(a) ==
   CASE a.op = "set"   -> Put(a.h, IF InU(a.i) THEN bm[a.h] \cup {a.i} ELSE bm[a.h])
     [] a.op = "unset" -> Put(a.h, bm[a.h] \ {a.i})
+    \* a run of cnt calls Set / Unset(lo), (lo+step), ..., logged as one run-length-encoded event
+    [] a.op = "setrun"   -> a.step >= 1 /\ a.cnt >= 0 /\ Put(a.h, bm[a.h] \cup InRun(a))
+    [] a.op = "unsetrun" -> a.step >= 1 /\ a.cnt >= 0 /\ Put(a.h, bm[a.h] \ InRun(a))
     [] a.op = "fill"  -> \* the harness stores raw words: bit j of word k <=> member WBits*k+j
                          /\ \A i \in 1..Len(a.ms) : InU(a.ms[i])
                          /\ Put(a.h, {a.ms[i] : i \in 1..Len(a.ms)})
@@ -271,6 +277,8 @@ Idx == IF univ = WBits THEN {i \in IdxSet : i >= 0 /\ i <= 255} ELSE IdxSet
 
 Acts ==
        [op : {"set", "unset"}, h : Hs, i : Idx]
+  \cup [op : {"setrun", "unsetrun"}, h : Hs, lo : IF univ = WBits THEN {0, 3} ELSE {-2, 0, 3},
+        cnt : IF univ = WBits THEN {0, 1, 3, 80} ELSE {0, 1, 3, 300}, step : {1, 3}]      \* word layer: bytes
   \cup [op : {"len", "nlen"}, h : Hs]
   \cup [op : {"rev"}, h : Hs, d : Hs]
   \cup [op : {"and", "or", "orrev"}, h : Hs, g : Hs, d : Hs]
@@ -303,6 +311,18 @@ SetExact ==
        /\ bm'[a.h] \subseteq U
        /\ Others(a.h)
        /\ ImplSet(bm[a.h], a.i, a.op = "set") = bm'[a.h]
+  ]_allvars
+
+(* a run is the same as its single calls one after the other (through the code's guard) *)
+RECURSIVE RunFrom(_, _, _, _)
+RunFrom(S, a, k, on) ==
+  IF k >= a.cnt \/ a.lo + k * a.step > univ + 2 * WBits THEN S      \* nothing beyond changes anything
+  ELSE RunFrom(ImplSet(S, a.lo + k * a.step, on), a, k + 1, on)
+RunExact ==
+  [][LET a == last' IN a.op \in {"setrun", "unsetrun"} =>
+       /\ bm'[a.h] = RunFrom(bm[a.h], a, 0, a.op = "setrun")
+       /\ bm'[a.h] \subseteq U
+       /\ Others(a.h)
   ]_allvars
 
 Counts ==
